@@ -36,7 +36,8 @@ def shards(tier):
 def required_counters(tier):
     return {'judged:operator-consistency': 200, 'judged:construction': 200, 'judged:mask-placement': 100, 'judged:commute-rotate': 50,
             'judged:commute-to_sky': 50, 'judged:annulus-membership': 100, 'judged:annulus-area': 50,
-            'monitor:contains:CompoundPixelRegion': 100, 'monitor:to_mask:CompoundPixelRegion:center': 50, 'judged:sky-compound-contains': 20, 'history-steps': 30}
+            'monitor:contains:CompoundPixelRegion': 100, 'monitor:to_mask:CompoundPixelRegion:center': 50, 'judged:sky-compound-contains': 20, 'history-steps': 30,
+            'unprojectable-sky-positions': 50}
 
 
 def setup(obs):
@@ -248,6 +249,15 @@ def run_case(case, obs):
         px, py = np.asarray(pc.x, dtype=float), np.asarray(pc.y, dtype=float)
         if px.size:
             sc = w.pixel_to_world(px, py)
+            if case['rs'] % 2:
+                # plus positions the WCS cannot project (far side of the projection: NaN pixel coordinates) - the operands
+                # still give an answer there (an excluded operand says True), and the compound is the operator of those
+                from astropy.coordinates import concatenate
+                ref = w.pixel_to_world(w.wcs.crpix[0] - 1, w.wcs.crpix[1] - 1)
+                far = ref.directional_offset_by(np.array([0.0, 100.0, 215.0]) * u.deg, np.array([179.0, 150.0, 120.0]) * u.deg)
+                sc = concatenate([sc.reshape(-1), far])
+                fx, fy = w.world_to_pixel(far)
+                obs.count('unprojectable-sky-positions', int(np.sum(~np.isfinite(fx) | ~np.isfinite(fy))))
             r = np.asarray(sk.contains(sc, w))
             exp = NPOP[sk.operator](np.asarray(sk.region1.contains(sc, w)), np.asarray(sk.region2.contains(sc, w)))
             if not dict.get(sk.meta, 'include', True):
